@@ -395,7 +395,7 @@ Section CNP.
       destruct (quiet_step _ _ _ _ I Hh C Q1 ST) as (H1 & C1 & R1 & F1).
       pose proof (step_inv _ _ _ _ I (quiet_good _ Q1) ST) as I1.
       destruct (IH _ _ _ I1 H1 C1 Q2 RN) as (I2 & H2 & C2 & R2 & F2).
-      repeat split; auto. congruence.
+      split; [exact I2|]. split; [exact H2|]. split; [exact C2|]. split; [constructor; assumption|]. rewrite F2. exact F1.
   Qed.
 
   Definition sends_of (evs : list cev) : list (list byte) :=
@@ -427,6 +427,17 @@ Section CNP.
       cbn [length]. f_equal. exact (IH _ _ _ RN).
   Qed.
 
+  Lemma run_snoc evs ev : forall s0 s rs,
+    run s0 (evs ++ [ev]) = (s, rs) ->
+    exists s1 rs1 r, run s0 evs = (s1, rs1) /\ step s1 ev = (s, r) /\ rs = rs1 ++ [r].
+  Proof.
+    induction evs as [|e0 evs IH]; intros s0 s rs H; cbn [app cn_run] in H |- *.
+    - destruct (step s0 ev) as [s1 r] eqn:ST. injection H as <- <-. exists s0, [], r. auto.
+    - destruct (step s0 e0) as [s1 r1]. destruct (run s1 (evs ++ [ev])) as [s2 rs2] eqn:RN.
+      injection H as <- <-. destruct (IH _ _ _ RN) as (sa & rsa & r & E1 & E2 & E3).
+      rewrite E1. exists sa, (r1 :: rsa), r. subst rs2. auto.
+  Qed.
+
   (* C19_close_flushes.  No carrier failure: after any mix of flushed and buffered Sends,
      timer firings and delay changes, every Send has returned nil, and once Close returns
      (nil) the wire is exactly the concatenation of everything sent, the last buffered
@@ -438,15 +449,7 @@ Section CNP.
     Forall (fun r => r = CROk \/ r = CRNone) rs /\ last rs CRNone = CROk.
   Proof.
     intros Q H.
-    assert (SPLIT : exists s1 rs1 r, run (cinit d0 None cs e lim dl dlc false) evs = (s1, rs1) /\
-                     step s1 CClose = (s, r) /\ rs = rs1 ++ [r]).
-    { revert H. generalize (cinit d0 None cs e lim dl dlc false). clear Q.
-      induction evs as [|ev evs IH]; intros s0 H; cbn [app cn_run] in H |- *.
-      - destruct (step s0 CClose) as [s1 r] eqn:ST. injection H as <- <-. exists s0, [], r. auto.
-      - destruct (step s0 ev) as [s1 r1]. destruct (run s1 (evs ++ [CClose])) as [s2 rs2] eqn:RN.
-        injection H as <- <-. destruct (IH _ RN) as (sa & rsa & r & E1 & E2 & E3).
-        rewrite E1. exists sa, (r1 :: rsa), r. subst rs2. auto. }
-    destruct SPLIT as (s1 & rs1 & r & RN & ST & ->).
+    destruct (run_snoc _ _ _ _ _ H) as (s1 & rs1 & r & RN & ST & ->).
     destruct (quiet_run _ _ _ _ (inv_init _ _ _ _ _ _ _ _) (healthy_init d0) eq_refl Q RN) as (I1 & H1 & C1 & R1 & F1).
     destruct (close_flushes _ _ _ I1 H1 ST) as (W & A & SA & Bf & C & RO).
     specialize (RO C1 F1). subst r.
@@ -467,8 +470,8 @@ Section CNP.
         * destruct (step s0 ev) as [sa ra] eqn:ST. destruct (run sa evs) as [sb rsb] eqn:RN2.
           injection RN as <- <-. cbn [combine In] in HI. destruct HI as [HI|HI].
           -- injection HI as -> ->. cbn [cn_step] in ST. destruct bs as [bs|].
-             ++ destruct (mw_write (c_enc s0) bs (negb async)) as [e' [c|]]; injection ST as <- <-; discriminate.
-             ++ injection ST as <- <-. discriminate.
+             ++ destruct (mw_write (c_enc s0) bs (negb async)) as [e' [c|]]; discriminate ST.
+             ++ discriminate ST.
           -- exact (IH _ _ RN2 HI).
     - apply Forall_app. split; [exact R1|constructor; [left; reflexivity|constructor]].
     - rewrite last_last. reflexivity.
@@ -606,7 +609,7 @@ Section CNP.
     end /\
     (d_buf (c_dec s) = [] -> r = CRRecvErr (ESource code_closed)).
   Proof.
-    intros I C H. pose proof (step_inv _ _ _ _ I Logic.I H) as I'.
+    intros I C H. pose proof (step_inv _ CReceive _ _ I Logic.I H) as I'.
     destruct I as (_ & _ & _ & I4 & _). destruct (I4 C) as (_ & D1 & D2).
     assert (CB : forall x, d_buf (c_dec (fst (carrier_close x))) = d_buf (c_dec x) /\ c_closed (fst (carrier_close x)) = true).
     { intros x. unfold carrier_close. destruct (c_closed x) eqn:Cx; auto. }
